@@ -420,8 +420,8 @@ def equal(cx, a, b, st):
 
 
 def pyfloordiv(a, b):
-    q, r = a / b, a % b            # z3: r >= 0 (Euclidean)
-    return z3.If(b > 0, q, z3.If(r == 0, q, q + 1))
+    q, r = a / b, a % b            # z3: a == b*q + r with 0 <= r < |b| (Euclidean)
+    return z3.If(b > 0, q, z3.If(r == 0, q, q - 1))     # floor: for b < 0 and r != 0 the Euclidean quotient is one too large
 
 
 def pymod(a, b):
